@@ -6,7 +6,7 @@ mod handles;
 mod payload;
 mod rt;
 
-use exec::{Outcome, RunResult, Scenario, Source};
+use exec::{Outcome, RunResult, Scenario};
 use serde_json::{json, Value};
 use std::collections::hash_map::DefaultHasher;
 use std::collections::{HashMap, HashSet};
@@ -166,8 +166,8 @@ fn main() {
                         if si % of != part {
                             continue;
                         }
-                        let mut src = explore::Prefix { prefix: vec![] };
-                        let res = exec::run(scn, &mut src, record_ops, quarantine);
+                        let src = Box::new(explore::Prefix { prefix: vec![] });
+                        let (res, _) = exec::run(scn, src, record_ops, quarantine);
                         sink.put(scn, &res, &json!("default"));
                     }
                     "dfs" => {
@@ -181,8 +181,8 @@ fn main() {
                                 exhaustive = false;
                                 break;
                             }
-                            let mut src = explore::Prefix { prefix: p };
-                            let res = exec::run(scn, &mut src, record_ops, quarantine);
+                            let src = Box::new(explore::Prefix { prefix: p });
+                            let (res, _) = exec::run(scn, src, record_ops, quarantine);
                             dfs.record(&res.steps);
                             sink.put(scn, &res, &json!("dfs"));
                             n += 1;
@@ -197,12 +197,12 @@ fn main() {
                             let s = seed.wrapping_mul(1_000_003).wrapping_add((si * 7919 + k) as u64);
                             let res = if mode == "random" {
                                 let p = [0.05, 0.15, 0.4, 1.0][k % 4];
-                                let mut src = explore::Uniform::new(s, p);
-                                exec::run(scn, &mut src, record_ops, quarantine)
+                                let src = Box::new(explore::Uniform::new(s, p));
+                                exec::run(scn, src, record_ops, quarantine).0
                             } else {
                                 let nth = scn.phases.iter().map(|p| p.len()).max().unwrap_or(1) + 1;
-                                let mut src = explore::Pct::new(s, nth, 1 + k % 4, 120);
-                                exec::run(scn, &mut src, record_ops, quarantine)
+                                let src = Box::new(explore::Pct::new(s, nth, 1 + k % 4, 120));
+                                exec::run(scn, src, record_ops, quarantine).0
                             };
                             sink.put(scn, &res, &json!({"mode":mode,"seed":s}));
                         }
@@ -232,14 +232,18 @@ fn main() {
                 };
                 let sched: Vec<usize> =
                     v["sched"].as_array().unwrap().iter().map(|x| x.as_u64().unwrap() as usize).collect();
-                let mut src = explore::Replay::new(sched);
-                let res = exec::run(scn, &mut src, true, quarantine);
-                skipped += src.skipped;
+                let src = Box::new(explore::Replay::new(sched));
+                let sk = src.skipped.clone();
+                let lockstep = v["ops"].is_array();
+                let (res, _) = exec::run_opt(scn, src, true, quarantine, lockstep);
+                skipped += sk.load(std::sync::atomic::Ordering::Relaxed);
                 if let Some(exp) = v["ops"].as_array() {
                     // lockstep comparison of the op streams
+                    let skip = v["skip_phases"].as_u64().unwrap_or(0) as usize;
                     let got: Vec<Value> = res
                         .ops
                         .iter()
+                        .filter(|o| o.phase >= skip)
                         .map(|o| json!([o.t, o.kind.name(), loc_name(&res.layout, o.addr), o.val, o.ok]))
                         .collect();
                     let mut ok = got.len() == exp.len();
@@ -292,8 +296,21 @@ fn op_matches(exp: &Value, got: &Value) -> bool {
         (Some(e), Some(g)) => (e, g),
         _ => return false,
     };
+    let loc = e.get(2).and_then(|x| x.as_str()).unwrap_or("");
     for i in 0..e.len().min(g.len()) {
         if e[i] == json!("*") {
+            continue;
+        }
+        if i == 2 && (loc == "waitlock" || loc == "waitcv") && g[i] == json!("?") {
+            continue;
+        }
+        if i == 3 && loc == "signal" {
+            // only the no-reader bit belongs to this model
+            let ev = e[i].as_u64().unwrap_or(0) & 2;
+            let gv = g[i].as_u64().unwrap_or(0) & 2;
+            if ev != gv {
+                return false;
+            }
             continue;
         }
         if e[i] != g[i] {
